@@ -29,7 +29,7 @@ func Atoms(v interface{}) map[string]Atom {
 var tTimeT = reflect.TypeOf(time.Time{})
 
 func walkValue(v reflect.Value, path string, out map[string]Atom, depth int) {
-	if depth > 64 {
+	if depth > 2000 {
 		return
 	}
 	if !v.IsValid() {
